@@ -30,8 +30,8 @@ class R2C(Unit):
         self.bounds = {"shape": list(shape), "axis": axis, "dtype": dtype}
 
     def build(self, S):
-        if self.dtype == "complex128":
-            z = S.carray("z", self.shape)
+        if self.dtype in ("complex128", "complex64"):
+            z = S.carray("z", self.shape, np.dtype(self.dtype))
         elif np.dtype(self.dtype).kind in "iub":
             lo, hi = {"b": (0, 1), "u": (0, 50), "i": (-50, 50)}[np.dtype(self.dtype).kind]
             z = S.iarray("z", self.shape, lo, hi)
@@ -44,7 +44,7 @@ class R2C(Unit):
         return pb.utils.real_to_complex(a["z"], axis=self.axis)
 
     def spec(self, S, a, out):
-        if self.dtype == "complex128":
+        if self.dtype in ("complex128", "complex64"):
             return [("complex-refused", z3.BoolVal(not (isinstance(out, Raised) and out.cls is ValueError)))]
         if isinstance(out, Raised):
             return [("no-exception", z3.BoolVal(True))]
@@ -121,4 +121,6 @@ def units(tier):
         us.append(R2C((2, 3), 1, dt))
     us.append(R2C((3,), 0, "complex128"))
     us.append(R2C((2, 2), 1, "complex128"))
+    us.append(R2C((3,), 0, "complex64"))           # (every complex width is refused, not only Python's `complex`)
+    us.append(R2C((2, 2), 0, "complex64"))
     return us
